@@ -172,6 +172,19 @@ RenamesDefined(o, r) ==
     /\ ObjOK(RenamedObj(o, r))
     /\ \A k \in DOMAIN r : r[k][2].base # ""
 
+(* update_renames(r, overwrite=True): the renames of EVERY function are replaced, so each name that r does not mention goes  *)
+(* back to the spelling its function was built with (also losing its scope).  The model knows that spelling only while  *)
+(* `sem` still carries the built names: objects that never went through a merge (nest / simplify) or a join (which may  *)
+(* re-tag colliding originals); the harness issues this operation only on such objects (and builds them without initial *)
+(* renames), the guard ~o.merged is the part of that discipline the model can see.                                       *)
+RenOverwrite(o, r)   == ForceFn([n \in DOMAIN o.ren |-> IF PHas(r, CurName(o, n)) THEN PGet(r, CurName(o, n)) ELSE Plain(n)])
+OverwrittenObj(o, r) == [o EXCEPT !.ren = RenOverwrite(o, r)]
+OverwriteDefined(o, r) ==
+    /\ ~o.merged
+    /\ PKeys(r) \subseteq CurSet(o, Visible(o)) /\ Cardinality(PKeys(r)) = Len(r)
+    /\ ObjOK(OverwrittenObj(o, r))
+    /\ \A k \in DOMAIN r : r[k][2].base # ""
+
 (* update_scope(scope, inputs, outputs, exclude); ins/outs = [all : BOOLEAN, names : Seq]; scope "" removes *)
 ScopeTargets(o, ins, outs, exc) ==
     LET roots == CurSet(o, FreeRoots(o.sem))
@@ -296,6 +309,7 @@ PickleRoundTrip(a, id)   == a \in Live /\ id \notin Live /\ Step("pickle", {id},
 Join(a, b, id)           == /\ a \in Live /\ b \in Live /\ id \notin Live /\ JoinDefined(objs[a], objs[b], id)
                             /\ Step("join", {id}, Put(id, JoinObj(objs[a], objs[b], id)))
 UpdateRenames(a, r)      == a \in Live /\ RenamesDefined(objs[a], r) /\ Step("update_renames", {a}, Put(a, RenamedObj(objs[a], r)))
+OverwriteRenames(a, r)   == a \in Live /\ OverwriteDefined(objs[a], r) /\ Step("overwrite_renames", {a}, Put(a, OverwrittenObj(objs[a], r)))
 UpdateScope(a, s, ins, outs, exc) == /\ a \in Live /\ s # "" /\ ScopeDefined(objs[a], s, ins, outs, exc)
                                      /\ Step("update_scope", {a}, Put(a, ScopedObj(objs[a], s, ins, outs, exc)))
 RemoveScope(a, ins, outs, exc)    == /\ a \in Live /\ ScopeDefined(objs[a], "", ins, outs, exc)
